@@ -54,7 +54,7 @@ static void scen_run(void)
         CHK(C06, r == CAT_STATUS_OK && W.in_pos == S.in_len && W.u_state == 0, "line completely processed within the step bound");
 
         if (!is_read) {
-                int is_test = (first == '?') && ((S.hm[ci] & H_TEST) || W.cmd[ci].var_num > 0);
+                int is_test = (first == '?') && ((S.hm[ci] & H_TEST) || G_cmd[ci].var_num > 0);
                 if (ns >= cap) {
                         /* arguments do not fit (capacity includes the NUL): rejected, never cut */
                         CHK(C06, W.hl_n == 0, "over-long argument list: no handler may run");
@@ -69,11 +69,11 @@ static void scen_run(void)
                                         if (i < ns)
                                                 CHK(C06, G_wdata[i] == sent[i], "write handler sees the bytes that were sent (CR removed, case preserved)");
                                 CHK(C06, G_wdata[ns] == 0, "argument text is NUL-terminated");
-                                if (W.cmd[ci].var_num > 0 && S.vacc[ci - 1] != CAT_VAR_ACCESS_READ_ONLY)
+                                if (G_cmd[ci].var_num > 0 && S.vacc[ci - 1] != CAT_VAR_ACCESS_READ_ONLY)
                                         expect_args = 1;
                                 CHK(C06, G_wargs == expect_args, "args_num equals the number of variables that were parsed");
                         }
-                        if (W.cmd[ci].var_num == 0)
+                        if (G_cmd[ci].var_num == 0)
                                 CHK(C06, (W.hl_n == 1) == ((S.hm[ci] & H_WRITE) != 0), "write handler runs iff present (variable-less command)");
                 }
                 WITNESS(W.hl_n == 1 && ns >= 2, "write-handler-saw-2-bytes");
@@ -85,12 +85,12 @@ static void scen_run(void)
                         char exp[16];
                         unsigned n = 0, val, neg = 0;
                         exp[n++] = '+'; exp[n++] = (char)('A' + ci); exp[n++] = '=';
-                        if (ci == 1 && W.cmd[1].var_num > 0 && S.vacc[0] != CAT_VAR_ACCESS_WRITE_ONLY) {
+                        if (ci == 1 && G_cmd[1].var_num > 0 && S.vacc[0] != CAT_VAR_ACCESS_WRITE_ONLY) {
                                 val = G_v0;
                                 if (val >= 100) exp[n++] = (char)('0' + val / 100);
                                 if (val >= 10) exp[n++] = (char)('0' + (val / 10) % 10);
                                 exp[n++] = (char)('0' + val % 10);
-                        } else if (ci == 2 && W.cmd[2].var_num > 0 && S.vacc[1] != CAT_VAR_ACCESS_WRITE_ONLY) {
+                        } else if (ci == 2 && G_cmd[2].var_num > 0 && S.vacc[1] != CAT_VAR_ACCESS_WRITE_ONLY) {
                                 int sv = (int8_t)G_v1;
                                 if (sv < 0) { neg = 1; sv = -sv; }
                                 val = (unsigned)sv;
